@@ -141,7 +141,16 @@ func (c *ATConn) execWith(ctx context.Context, query string, args []driver.Named
 }
 
 // BeginTx
-func (c *ATConn) BeginTx(ctx context.Context, opts driver.TxOptions) (driver.Tx, error) {
+func (c *ATConn) BeginTx(ctx context.Context, opts driver.TxOptions) (result driver.Tx, resultErr error) {
+	// a transaction that could not be begun leaves the connection in the mode it was in: on a connection the
+	// application keeps (db.Conn) the next statement of a global transaction would otherwise find auto-commit
+	// cleared, open no branch and be committed by the database on its own
+	wasAutoCommit := c.autoCommit
+	defer func() {
+		if resultErr != nil {
+			c.autoCommit = wasAutoCommit
+		}
+	}()
 	c.autoCommit = false
 
 	c.txCtx = types.NewTxCtx()
